@@ -11,7 +11,11 @@ package proxy
 // backend stage (dial / login / configuration / before JoinGame), requests
 // parked together inside ServerPreConnectEvent subscribers and released in a
 // generated order, two requests pushed together through the window between
-// checkServer and setInFlightConnection, and backend kicks / drops in play.
+// checkServer and setInFlightConnection, backend kicks / drops in play, and
+// requests whose ServerPreConnectEvent subscriber re-targets them (to another
+// registered server, to the server the player is on, while another attempt is
+// in flight) or denies them. Predictions are made on the destination the
+// subscriber chose, not on the originally requested server.
 //
 // Oracle (all clauses from the property statement): statuses of requests that
 // must not start an attempt (AlreadyConnected / InProgress) and absence of side
@@ -52,7 +56,7 @@ type c16Backend struct {
 }
 
 type c16Step struct {
-	Op        string    `json:"op"` // seq | overlap | prehold | window | kick | drop
+	Op        string    `json:"op"` // seq | overlap | prehold | window | redirect | kick | drop
 	T1        int       `json:"t1"`
 	API1      int       `json:"api1"`
 	S1        c15Script `json:"s1"`
@@ -65,6 +69,13 @@ type c16Step struct {
 	First     int       `json:"first"`      // prehold: which request is released first
 	WaitFirst bool      `json:"wait_first"` // prehold: wait for the first to return before releasing the second
 	Forced    bool      `json:"forced"`     // window: force both requests through the checkServer window together
+	// redirect / prehold: what the ServerPreConnectEvent subscriber of request 1 / 2 does:
+	// "" nothing | other: Allow(another registered server) | current: Allow(the server the
+	// player is on when the subscriber returns) | deny: Deny()
+	RM1 string `json:"rm1,omitempty"`
+	RT1 int    `json:"rt1,omitempty"` // other: destination as offset (!= 0) from the current server at step start
+	RM2 string `json:"rm2,omitempty"`
+	RT2 int    `json:"rt2,omitempty"`
 }
 
 type c16Case struct {
@@ -165,6 +176,41 @@ func c16Gen(t *rapid.T) c16Case {
 		if rapid.IntRange(0, 9).Draw(t, "to_current") == 0 {
 			st.T1 = 0
 		}
+		genRT := func(label string, avoid int) int {
+			rt := rapid.IntRange(1, nb-1).Draw(t, label)
+			if rt == avoid && nb > 2 { // prefer a destination that differs from the requested server
+				rt = rt%(nb-1) + 1
+			}
+			return rt
+		}
+		switch rk := rapid.SampledFrom([]string{"redirect", "", "prehold-redirect", "", "", ""}).Draw(t, "redirect_op"); rk {
+		case "redirect":
+			// one request whose PreConnect subscriber re-targets or denies it
+			st.Op = "redirect"
+			st.S1 = c16GenScript(t, cfgPhase, false)
+			st.RM1 = rapid.SampledFrom([]string{"current", "other", "deny", "other", "current"}).Draw(t, "rm1")
+			st.RT1 = genRT("rt1", st.T1)
+			c.Steps = append(c.Steps, st)
+			continue
+		case "prehold-redirect":
+			// two requests parked in their subscribers; at least the one released last is re-targeted / denied
+			st.Op = "prehold"
+			st.S1 = c15Script{Thr: -1}
+			st.T2 = rapid.IntRange(1, nb-1).Draw(t, "t2_other")
+			st.First = rapid.IntRange(0, 1).Draw(t, "first")
+			st.WaitFirst = rapid.IntRange(0, 2).Draw(t, "wait_first") == 2
+			firstModes := []string{"", "other"} // released first without waiting: it has to reach its backend
+			if st.WaitFirst {
+				firstModes = []string{"", "current", "other", "deny"}
+			}
+			rm := [2]string{}
+			rm[st.First] = rapid.SampledFrom(firstModes).Draw(t, "rm_first")
+			rm[1-st.First] = rapid.SampledFrom([]string{"current", "other", "deny"}).Draw(t, "rm_second")
+			st.RM1, st.RM2 = rm[0], rm[1]
+			st.RT1, st.RT2 = genRT("rt1", st.T1), genRT("rt2", st.T2)
+			c.Steps = append(c.Steps, st)
+			continue
+		}
 		switch k := rapid.IntRange(0, 99).Draw(t, "op"); {
 		case k < 25:
 			st.Op = "seq"
@@ -205,7 +251,9 @@ func c16Range(n int) []int {
 
 type c16Req struct {
 	id       string
-	target   string
+	target   string // the requested server
+	dest     string // the server the attempt must go to: target unless a PreConnect subscriber re-targeted the request
+	redir    string // what the PreConnect subscriber did: "" | other | current | deny
 	api      int
 	cancel   context.CancelFunc
 	script   *c15Script
@@ -234,12 +282,19 @@ type c16Exec struct {
 	preArmed   bool
 	preArrived int
 	preRelease map[int]chan struct{}
+	preAct     map[int]c16PreAct
 	winArmed   bool
 	winArrived int
 	winNeed    int
 	winCh      chan struct{}
 	curModel   string // expected current server; "?" when the model does not know
 	needServer string // set when the proxy's own recovery ran: an alive player must be on some server
+}
+
+// c16PreAct is what a parked ServerPreConnectEvent subscriber does once released.
+type c16PreAct struct {
+	deny  bool
+	allow RegisteredServer // nil: leave the event as is
 }
 
 type c16Sink struct{ hook func(name string) }
@@ -259,7 +314,7 @@ func (x *c16Exec) snapshot() c16Snap {
 	defer x.rig.mu.Unlock()
 	n := 0
 	for _, e := range x.rig.events {
-		if e.Kind != "preconnect" {
+		if e.Kind != "preconnect" && e.Kind != "redirect" {
 			n++
 		}
 	}
@@ -267,16 +322,22 @@ func (x *c16Exec) snapshot() c16Snap {
 }
 
 func (x *c16Exec) issue(t, api int, sc *c15Script) *c16Req {
+	return x.issueVia(t, api, sc, x.names[t])
+}
+
+// issueVia issues a request to server t; the one-shot script sc is given to
+// backend scriptAt (the server the attempt is expected to dial).
+func (x *c16Exec) issueVia(t, api int, sc *c15Script, scriptAt string) *c16Req {
 	r := x.rig
 	name := x.names[t]
 	srv := r.proxy.Server(name)
-	q := &c16Req{id: fmt.Sprintf("r%d", x.reqN), target: name, api: api, script: sc}
+	q := &c16Req{id: fmt.Sprintf("r%d", x.reqN), target: name, dest: name, api: api, script: sc}
 	x.reqN++
 	ctx, cancel := context.WithCancel(context.WithValue(context.Background(), c15ReqKey{}, q.id))
 	q.cancel = cancel
 	if sc != nil {
 		r.mu.Lock()
-		r.backends[name].overrides = append(r.backends[name].overrides, sc)
+		r.backends[scriptAt].overrides = append(r.backends[scriptAt].overrides, sc)
 		r.mu.Unlock()
 	}
 	r.wg.Add(1)
@@ -289,7 +350,7 @@ func (x *c16Exec) issue(t, api int, sc *c15Script) *c16Req {
 			}
 			r.mu.Lock()
 			q.returned = true
-			if b := r.backends[name]; sc != nil {
+			if b := r.backends[scriptAt]; sc != nil {
 				for i, o := range b.overrides {
 					if o == sc { // never dialed: drop its one-shot script
 						b.overrides = append(b.overrides[:i:i], b.overrides[i+1:]...)
@@ -383,9 +444,10 @@ func (x *c16Exec) fail(key, format string, a ...any) {
 
 // checkDoubleRecovery: a KickedFromServerEvent for server X reports the failure of
 // one attempt to X (or of the established connection to X). A second one for X
-// needs a new attempt to X, which fires ServerPreConnectEvent for X first; two
-// kicked events for X without that in between mean two goroutines ran the
-// recovery for a single failure.
+// needs a new attempt to X, which fires ServerPreConnectEvent for X first (or for
+// another server, whose subscriber re-targets the request to X); two kicked
+// events for X without that in between mean two goroutines ran the recovery
+// for a single failure.
 func (x *c16Exec) checkDoubleRecovery() {
 	x.rig.mu.Lock()
 	ev := append([]c15Event(nil), x.rig.events...)
@@ -393,7 +455,7 @@ func (x *c16Exec) checkDoubleRecovery() {
 	kickedSince := map[string]bool{}
 	for _, e := range ev {
 		switch e.Kind {
-		case "preconnect":
+		case "preconnect", "redirect":
 			delete(kickedSince, e.Server)
 		case "kicked":
 			if kickedSince[e.Server] {
@@ -529,14 +591,27 @@ func (x *c16Exec) checkNoSideEffects(site string, before c16Snap, q *c16Req, all
 	}
 }
 
-func (x *c16Exec) expectNoop(site string, q *c16Req, want string) {
-	ok := q.status == want
+func (x *c16Exec) expectNoop(site string, q *c16Req, want ...string) {
+	ok := false
+	for _, w := range want {
+		ok = ok || q.status == w
+	}
 	if q.api == c16APIIndication {
 		ok = q.status == "notok"
 	}
 	if !ok {
-		x.fail("status:"+site, "request %s to %s (api %d): got %q, want %q; %s", q.id, q.target, q.api, q.status, want, x.describe())
+		x.fail("status:"+site, "request %s to %s%s (api %d): got %q, want %q; %s", q.id, q.target, q.via(), q.api, q.status, want, x.describe())
 	}
+}
+
+func (q *c16Req) via() string {
+	switch q.redir {
+	case "":
+		return ""
+	case "deny":
+		return " (denied by its ServerPreConnectEvent subscriber)"
+	}
+	return fmt.Sprintf(" (re-targeted to %s by its ServerPreConnectEvent subscriber)", q.dest)
 }
 
 // quiescent waits for the transport to settle and checks the structural
@@ -642,13 +717,16 @@ func (x *c16Exec) judge(site string, q *c16Req, pred string, before c16Snap) {
 	case "already":
 		x.expectNoop(site+":already", q, "already")
 		x.checkNoSideEffects("already-connected", before, q, false)
+	case "canceled":
+		x.expectNoop(site+":canceled", q, "canceled")
+		x.checkNoSideEffects("canceled", before, q, false)
 	case "success":
 		if q.status != "success" {
-			x.fail("status:"+site, "request %s to healthy %s: got %q (%s), want success; %s", q.id, q.target, q.status, q.errText, x.describe())
+			x.fail("status:"+site, "request %s to healthy %s%s: got %q (%s), want success; %s", q.id, q.target, q.via(), q.status, q.errText, x.describe())
 		}
 		// immediately on return: destination is current, previous connection closed, lists exact
-		if cur := x.curName(); cur != q.target {
-			x.fail("success:not-on-destination", "request %s to %s succeeded but the player is on %q; %s", q.id, q.target, cur, x.describe())
+		if cur := x.curName(); cur != q.dest {
+			x.fail("success:not-on-destination", "request %s to %s%s succeeded but the player is on %q; %s", q.id, q.target, q.via(), cur, x.describe())
 		}
 		if before.cur != nil {
 			if mc := before.cur.conn(); mc != nil {
@@ -657,7 +735,7 @@ func (x *c16Exec) judge(site string, q *c16Req, pred string, before c16Snap) {
 			x.rig.mu.Lock()
 			stillOpen := ""
 			for _, s := range x.rig.sessionsLocked() {
-				if s.b.name == before.cur.server.info.Name() && s.joinSent && !s.peer.closed && s.b.name != q.target {
+				if s.b.name == before.cur.server.info.Name() && s.joinSent && !s.peer.closed && s.b.name != q.dest {
 					stillOpen = s.name
 				}
 			}
@@ -667,21 +745,21 @@ func (x *c16Exec) judge(site string, q *c16Req, pred string, before c16Snap) {
 			}
 		}
 		for _, n := range x.names {
-			if in, want := x.inList(n), n == q.target; in != want {
-				x.fail("success:player-list", "after a successful switch to %s: Players() of %q contains player = %v; %s", q.target, n, in, x.describe())
+			if in, want := x.inList(n), n == q.dest; in != want {
+				x.fail("success:player-list", "after a successful switch to %s: Players() of %q contains player = %v; %s", q.dest, n, in, x.describe())
 			}
 		}
-		x.curModel = q.target
+		x.curModel = q.dest
 	case "fail-pre":
 		if q.status == "success" || q.status == "already" || q.status == "inprogress" {
-			x.fail("status:"+site, "request %s to failing %s: got %q; %s", q.id, q.target, q.status, x.describe())
+			x.fail("status:"+site, "request %s to failing %s%s: got %q; %s", q.id, q.target, q.via(), q.status, x.describe())
 		}
 		if before.cur != nil {
 			// safe failure before the previous server was left: still there, same connection
 			if now := x.player.connectedServer(); now != before.cur {
 				if q.api == c16APIConnect || x.alive() {
-					x.fail("failure:previous-server-lost", "request %s to %s failed (%s %s) before the backend accepted the login, but the player is no longer on its previous server %s; %s",
-						q.id, q.target, q.status, q.errText, before.cur.server.info.Name(), x.describe())
+					x.fail("failure:previous-server-lost", "request %s to %s%s failed (%s %s) before the backend accepted the login, but the player is no longer on its previous server %s; %s",
+						q.id, q.target, q.via(), q.status, q.errText, before.cur.server.info.Name(), x.describe())
 				}
 			}
 		} else {
@@ -689,7 +767,7 @@ func (x *c16Exec) judge(site string, q *c16Req, pred string, before c16Snap) {
 		}
 	case "fail-post":
 		if q.status == "success" || q.status == "already" || q.status == "inprogress" {
-			x.fail("status:"+site, "request %s to failing %s: got %q; %s", q.id, q.target, q.status, x.describe())
+			x.fail("status:"+site, "request %s to failing %s%s: got %q; %s", q.id, q.target, q.via(), q.status, x.describe())
 		}
 		x.label("failure-after-previous-server-left")
 		if q.api == c16APIConnect {
@@ -778,6 +856,7 @@ func (x *c16Exec) armPre(n int) {
 	x.preArmed = true
 	x.preArrived = 0
 	x.preRelease = map[int]chan struct{}{}
+	x.preAct = map[int]c16PreAct{}
 	for i := 0; i < n; i++ {
 		x.preRelease[i] = make(chan struct{})
 	}
@@ -797,8 +876,13 @@ func (x *c16Exec) disarmPre() {
 	x.rig.mu.Unlock()
 }
 
-func (x *c16Exec) releasePre(i int) {
+func (x *c16Exec) releasePre(i int) { x.releasePreWith(i, c16PreAct{}) }
+
+// releasePreWith lets the subscriber parked as arrival i return after it has
+// applied act to its event.
+func (x *c16Exec) releasePreWith(i int, act c16PreAct) {
 	x.rig.mu.Lock()
+	x.preAct[i] = act
 	if ch, ok := x.preRelease[i]; ok {
 		select {
 		case <-ch:
@@ -809,7 +893,7 @@ func (x *c16Exec) releasePre(i int) {
 	x.rig.mu.Unlock()
 }
 
-func (x *c16Exec) onPreConnect(*ServerPreConnectEvent) {
+func (x *c16Exec) onPreConnect(e *ServerPreConnectEvent) {
 	r := x.rig
 	r.mu.Lock()
 	if !x.preArmed {
@@ -825,8 +909,73 @@ func (x *c16Exec) onPreConnect(*ServerPreConnectEvent) {
 		select {
 		case <-ch:
 		case <-r.closingCh:
+			return
+		}
+		r.mu.Lock()
+		act := x.preAct[idx]
+		r.mu.Unlock()
+		switch {
+		case act.deny:
+			e.Deny()
+		case act.allow != nil:
+			e.Allow(act.allow)
+			// harness note in the event log (not a proxy event): the attempt goes to this server
+			r.logEvent(c15Event{Kind: "redirect", Server: c15ServerName(act.allow), Previous: c15ServerName(e.PreviousServer())})
 		}
 	}
+}
+
+// redirDest: the destination of mode "other" (rt is an offset != 0 from the
+// server the model has the player on; fixed when the request is issued).
+func (x *c16Exec) redirDest(rt int) string {
+	base, nb := 0, len(x.names)
+	for j, n := range x.names {
+		if n == x.curModel {
+			base = j
+		}
+	}
+	rt %= nb
+	if rt == 0 {
+		rt = 1
+	}
+	return x.names[(base+rt)%nb]
+}
+
+// scriptAt: the backend the attempt of a request to orig with subscriber mode
+// (destination other) is expected to dial, if it dials at all.
+func (x *c16Exec) scriptAt(orig, mode, other string) string {
+	if mode == "other" {
+		return other
+	}
+	return orig
+}
+
+// redirect decides, at the moment the parked subscriber of q is released, what
+// it does with its event, and records the resulting destination in q.
+func (x *c16Exec) redirect(q *c16Req, mode, other string) c16PreAct {
+	switch mode {
+	case "deny":
+		q.redir, q.dest = "deny", ""
+		return c16PreAct{deny: true}
+	case "other":
+		q.redir, q.dest = "other", other
+		return c16PreAct{allow: x.rig.proxy.Server(other)}
+	case "current":
+		// the server the player is on now; the model must know it
+		if x.curModel != "" && x.curModel != "?" {
+			q.redir, q.dest = "current", x.curModel
+			return c16PreAct{allow: x.rig.proxy.Server(x.curModel)}
+		}
+	}
+	return c16PreAct{}
+}
+
+// predictReq: prediction for a released request, made on its destination.
+func (x *c16Exec) predictReq(q *c16Req, sc c15Script) string {
+	if q.redir == "deny" {
+		return "canceled"
+	}
+	return x.predict(q.dest, sc, "")
 }
 
 func (x *c16Exec) onLogName(name string) {
@@ -856,14 +1005,14 @@ func (x *c16Exec) onLogName(name string) {
 // parkTwo issues two requests that both wait inside ServerPreConnectEvent
 // subscribers; it returns them with the arrival index of each (-1: the request
 // returned without reaching the event).
-func (x *c16Exec) parkTwo(st c16Step, sc1, sc2 *c15Script) (qs [2]*c16Req, idx [2]int) {
+func (x *c16Exec) parkTwo(st c16Step, sc1, sc2 *c15Script, at [2]string) (qs [2]*c16Req, idx [2]int) {
 	x.armPre(2)
 	arrived := 0
 	for i, ta := range []struct {
 		t, api int
 		sc     *c15Script
 	}{{st.T1, st.API1, sc1}, {st.T2, st.API2, sc2}} {
-		q := x.issue(ta.t, ta.api, ta.sc)
+		q := x.issueVia(ta.t, ta.api, ta.sc, at[i])
 		want := arrived + 1
 		ok := x.rig.wait(c15Watchdog, func() bool { return q.returned || x.preArrived >= want })
 		if !ok {
@@ -884,11 +1033,18 @@ func (x *c16Exec) stepPrehold(st c16Step) {
 	before := x.snapshot()
 	hold := c15Script{Thr: -1, HoldAt: c15StLogin}
 	plain := c15Script{Thr: -1}
+	first, second := st.First, 1-st.First
+	mode := [2]string{st.RM1, st.RM2}
+	other := [2]string{x.redirDest(st.RT1), x.redirDest(st.RT2)}
+	if !st.WaitFirst && (mode[first] == "current" || mode[first] == "deny") {
+		mode[first] = "" // released first without waiting: it has to reach its backend
+	}
+	at := [2]string{x.scriptAt(x.names[st.T1], mode[0], other[0]), x.scriptAt(x.names[st.T2], mode[1], other[1])}
 	var sc [2]*c15Script
 	for i := range sc {
 		s := plain
 		holder := st.First
-		if st.T1 == st.T2 {
+		if at[0] == at[1] {
 			holder = 0 // same backend: one-shot scripts are consumed in dial order
 		}
 		if !st.WaitFirst && i == holder {
@@ -896,8 +1052,14 @@ func (x *c16Exec) stepPrehold(st c16Step) {
 		}
 		sc[i] = &s
 	}
-	qs, idx := x.parkTwo(st, sc[0], sc[1])
+	qs, idx := x.parkTwo(st, sc[0], sc[1], at)
 	defer x.disarmPre()
+	noteRedirect := func(q *c16Req, pred string) {
+		if q.redir != "" {
+			x.nt = true
+			x.label("redirect-" + q.redir + "-" + pred)
+		}
+	}
 	for i, q := range qs {
 		if idx[i] == -1 {
 			// returned at the first check: it targets the current server
@@ -908,54 +1070,111 @@ func (x *c16Exec) stepPrehold(st c16Step) {
 		// only one (or none) is parked: let it run like a sequential request
 		for i, q := range qs {
 			if idx[i] != -1 {
-				x.releasePre(idx[i])
+				act := x.redirect(q, mode[i], other[i])
+				pred := x.predictReq(q, plain)
+				x.releasePreWith(idx[i], act)
 				x.waitReq(q, true)
 				if !x.isReturned(q) {
 					x.release(q)
 					x.waitReq(q, false)
 				}
-				x.judge("prehold-single", q, x.predict(q.target, plain, ""), before)
+				noteRedirect(q, pred)
+				x.judge("prehold-single", q, pred, before)
 			}
 		}
 		return
 	}
 	x.nt = true
-	first, second := st.First, 1-st.First
-	x.releasePre(idx[first])
+	act := x.redirect(qs[first], mode[first], other[first])
+	predFirst := x.predictReq(qs[first], plain)
+	x.releasePreWith(idx[first], act)
 	if st.WaitFirst {
 		x.label("prehold-sequential")
 		x.waitReq(qs[first], false)
-		x.judge("prehold-first", qs[first], x.predict(qs[first].target, plain, ""), before)
+		noteRedirect(qs[first], predFirst)
+		x.judge("prehold-first", qs[first], predFirst, before)
 		mid := x.snapshot()
-		x.releasePre(idx[second])
+		act = x.redirect(qs[second], mode[second], other[second])
+		predSecond := x.predictReq(qs[second], plain)
+		x.releasePreWith(idx[second], act)
 		x.waitReq(qs[second], false)
-		x.judge("prehold-second", qs[second], x.predict(qs[second].target, plain, ""), mid)
+		noteRedirect(qs[second], predSecond)
+		x.judge("prehold-second", qs[second], predSecond, mid)
 		return
 	}
 	x.label("prehold-overlapping")
 	x.waitReq(qs[first], true)
 	if x.isReturned(qs[first]) {
-		x.fail("status:prehold-first", "request %s to %s returned %q instead of reaching the backend; %s", qs[first].id, qs[first].target, qs[first].status, x.describe())
+		x.fail("status:prehold-first", "request %s to %s%s returned %q instead of reaching the backend; %s", qs[first].id, qs[first].target, qs[first].via(), qs[first].status, x.describe())
 	}
 	x.settle()
 	mid := x.snapshot()
-	x.releasePre(idx[second])
+	act = x.redirect(qs[second], mode[second], other[second])
+	x.releasePreWith(idx[second], act)
 	x.waitReq(qs[second], true)
 	if !x.isReturned(qs[second]) || x.dialedLocked2(qs[second]) {
-		x.fail("inflight:second-attempt-started", "request %s to %s started a second connection attempt while %s to %s is in flight (both passed the first check, released one after the other); %s",
-			qs[second].id, qs[second].target, qs[first].id, qs[first].target, x.describe())
+		x.fail("inflight:second-attempt-started", "request %s to %s%s started a second connection attempt while %s to %s is in flight (both passed the first check, released one after the other); %s",
+			qs[second].id, qs[second].target, qs[second].via(), qs[first].id, qs[first].target, x.describe())
 	}
-	x.expectNoop("prehold-second", qs[second], "inprogress")
+	// Another attempt is in flight: the request is reported as such. Where the
+	// statement names a second applicable report (the subscriber denied the
+	// request; it re-targeted it to the current server) that one is accepted too.
+	want := []string{"inprogress"}
+	switch {
+	case qs[second].redir == "deny":
+		want = append(want, "canceled")
+	case qs[second].dest == x.curModel:
+		want = append(want, "already")
+	}
+	if qs[second].redir != "" {
+		x.label("redirect-" + qs[second].redir + "-while-in-flight")
+	}
+	x.expectNoop("prehold-second", qs[second], want...)
 	x.checkNoSideEffects("in-progress", mid, qs[second], true)
 	x.release(qs[first])
 	x.waitReq(qs[first], false)
-	x.judge("prehold-first", qs[first], x.predict(qs[first].target, plain, ""), before)
+	noteRedirect(qs[first], predFirst)
+	x.judge("prehold-first", qs[first], predFirst, before)
+}
+
+// stepRedirect: one request whose ServerPreConnectEvent subscriber re-targets it
+// (to another registered server or to the server the player is on) or denies it.
+func (x *c16Exec) stepRedirect(st c16Step) {
+	before := x.snapshot()
+	sc := st.S1
+	sc.HoldAt = ""
+	other := x.redirDest(st.RT1)
+	x.armPre(1)
+	defer x.disarmPre()
+	q := x.issueVia(st.T1, st.API1, &sc, x.scriptAt(x.names[st.T1], st.RM1, other))
+	if !x.rig.wait(c15Watchdog, func() bool { return q.returned || x.preArrived >= 1 }) {
+		x.inconclusive("prehold-watchdog")
+	}
+	if x.isReturned(q) {
+		// returned at the first check (it targets the current server): no event, no subscriber
+		x.waitReq(q, false)
+		x.judge("redirect-early", q, x.predict(q.target, sc, ""), before)
+		return
+	}
+	act := x.redirect(q, st.RM1, other)
+	pred := x.predictReq(q, sc)
+	x.releasePreWith(0, act)
+	x.waitReq(q, false)
+	if q.redir != "" {
+		x.nt = true
+		x.label("redirect-" + q.redir + "-" + pred)
+	}
+	if sc.FaultAt != "" && sc.FaultAt != c15StDial && pred != "already" && pred != "canceled" {
+		x.nt = true
+		x.label("fault-" + sc.FaultAt + "-" + sc.Fault)
+	}
+	x.judge("redirect", q, pred, before)
 }
 
 func (x *c16Exec) stepWindow(st c16Step) {
 	before := x.snapshot()
 	s1, s2 := c15Script{Thr: -1, HoldAt: c15StLogin}, c15Script{Thr: -1, HoldAt: c15StLogin}
-	qs, idx := x.parkTwo(st, &s1, &s2)
+	qs, idx := x.parkTwo(st, &s1, &s2, [2]string{x.names[st.T1], x.names[st.T2]})
 	defer x.disarmPre()
 	if idx[0] == -1 || idx[1] == -1 {
 		for i, q := range qs {
@@ -1115,6 +1334,8 @@ func (x *c16Exec) run() {
 			x.stepOverlap(st)
 		case "prehold":
 			x.stepPrehold(st)
+		case "redirect":
+			x.stepRedirect(st)
 		case "window":
 			x.stepWindow(st)
 		case "kick", "drop":
@@ -1180,6 +1401,6 @@ func c16Run(c c16Case) (res verifkit.Result) {
 
 func TestVerif_C16(t *testing.T) {
 	verifkit.Check(t, "C16", "switch",
-		"one player session per case through the real proxy with 2-4 scripted backends (healthy / refusing / kicking or closing during login) and a try list; 2-7 ops: sequential requests (Connect / ConnectWithIndication) to backends that accept, refuse, kick or drop at login / configuration / before JoinGame; requests issued while another attempt is parked at dial/login/config/pre-join (then released or cancelled); two requests parked in ServerPreConnectEvent subscribers and released in generated order; two requests released together (optionally forced through the checkServer window); kick / drop by the current backend; protocols 1.12.2, 1.20.1, 1.20.2, 1.21, 1.21.11; non-trivial: two overlapping requests or a backend fault after the handshake",
+		"one player session per case through the real proxy with 2-4 scripted backends (healthy / refusing / kicking or closing during login) and a try list; 2-7 ops: sequential requests (Connect / ConnectWithIndication) to backends that accept, refuse, kick or drop at login / configuration / before JoinGame; requests issued while another attempt is parked at dial/login/config/pre-join (then released or cancelled); two requests parked in ServerPreConnectEvent subscribers and released in generated order; two requests released together (optionally forced through the checkServer window); kick / drop by the current backend; requests whose ServerPreConnectEvent subscriber re-targets them to another registered server, to the server the player is on, while another attempt is in flight, or denies them (predictions made on the chosen destination); protocols 1.12.2, 1.20.1, 1.20.2, 1.21, 1.21.11; non-trivial: two overlapping requests, a backend fault after the handshake, or a request re-targeted / denied by its subscriber",
 		c16Gen, c16Run)
 }
